@@ -31,7 +31,7 @@ def _run_crop(data, prms, stub_checker):
 
 
 def h_crop(E, N, msa_none, full):
-    T = Table(E, N, 2, distinct_dt=bool(full))
+    T = Table(E, N, 2, distinct_dt=(full == 1))
     prms = default_prms()
     if msa_none:
         prms['MSA'] = None
@@ -49,7 +49,15 @@ def h_crop(E, N, msa_none, full):
         lim = msa + buf
     # rows are identified by a hidden extra column when the checker (which would drop it) is stubbed,
     # and by their pairwise distinct time stamps otherwise
-    data = T.frame(extra=None if full else {'rid': list(range(N))})
+    labels = None
+    if full == 2:
+        # arbitrary caller index labels, repeats allowed (pd.concat of per-ceilometer frames)
+        labels = [E.int('idx%d' % i) for i in range(N)]
+        E.cover('repeated index labels', Or([labels[i] == labels[j] for i in range(N) for j in range(i)] or [False]))
+        if not shim():
+            labels = [int(x) for x in labels]
+        full = 0
+    data = T.frame(extra=None if full else {'rid': list(range(N))}, index=labels)
     kind, out, ch = _run_crop(data, prms, stub_checker=not full)
     cl = [('no exception', kind == 'ok')]
     if kind != 'ok':
@@ -98,7 +106,7 @@ def h_crop(E, N, msa_none, full):
     cB['height'] = hB
     if not full:
         cB['rid'] = list(range(N))
-    kB, outB, chB = _run_crop(frame(cB), prms, stub_checker=not full)
+    kB, outB, chB = _run_crop(frame(cB, index=labels), prms, stub_checker=not full)
     okB = kB == 'ok' and len(outB) == len(out)
     cl.append(('other heights above the limit: same cleaned table and flag',
                okB and And([same_value(fval(a), fval(b)) for c in ('ceilo', 'dt', 'height', 'type')
@@ -128,6 +136,9 @@ HARNESSES = [
                    'constructor is run unstubbed in H-crop-init)'],
       doc='real AbstractChunk._cleanup_pdf on an accepted symbolic table: row oracle, flag, 2-run with other heights '
           'above the limit, 2-run with non-detections'),
+    H('H-crop-labels', h_crop, quick=[(2, 0, 2)], thorough=[(2, 0, 2), (3, 0, 2)], float_model='R',
+      cover=['repeated index labels', 'row above the limit dropped'], assumptions=['utils.check_data_consistency replaced by the identity (C15)'],
+      doc='same oracle on a frame carrying arbitrary (repeated) index labels: rows are cropped by what they are, not by their label'),
     H('H-crop-init', h_crop, quick=[(1, 0, 1), (2, 0, 1)], thorough=[(1, 0, 1), (2, 0, 1), (3, 0, 1), (2, 1, 1)],
       float_model='R', cover=['flag raised', 'row above the limit dropped'],
       assumptions=['time stamps pairwise distinct (rows are identified by them)'],
